@@ -277,6 +277,8 @@ def same_outcome(pred, oc):
     if pred['kind'] != oc['kind']:
         return False
     if pred['kind'] == 'exc':
+        if 'cls_in' in pred:
+            return oc['cls'] in pred['cls_in']
         return pred['cls'] == oc['cls']
     if 'value' in pred:
         return pred['value'] == oc.get('value')
